@@ -1,4 +1,6 @@
 import GB.C02.Progress
+import GB.C01.Status
+import GB.Generated.Facts
 import GB.C02.Stable
 /-
   C02 — every bridged call terminates promptly and releases its resources.
@@ -83,6 +85,48 @@ theorem C02_no_return_before_pumps (p : Params) (s : State M E) (hr : Reachable 
   cases hd : isDone s with
   | false => rfl
   | true => have := (C02_cleanup p s hr hd).2.1; rw [h] at this; cases this
+
+/-- Origin of the returned value, in every run (any faults, any schedule): nil only after the target's EOF
+    (or the dropped second response of a misbehaving unary target); an error value only if some stream
+    operation actually returned it; the context error only if an external cancellation / deadline of that
+    kind came first; the two synthesized Unavailable errors only for a unary request answered by EOF /
+    a unary response missing at EOF (`originOK`, GB/C01/Spec.lean — the same function the driver applies
+    to every observed trace). -/
+theorem C02_status (p : Params) (tr : List (Label M E)) (s : State M E) (h : Run p tr s)
+    (e : Option (Err E)) (hd : s.main = .done e) : originOK p tr e = true :=
+  returned_origin p tr s h e hd
+
+/-- …and if only the target ended the call (no cancellation, no other error), the returned value is the
+    target's status (`expectedReturn`, see C01_status / C01_status_error / C01_status_ok). -/
+theorem C02_status_target (p : Params) (tr : List (Label M E)) (s : State M E) (h : Run p tr s)
+    (e : Option (Err E)) (hd : s.main = .done e) (hf : hasFault tr = false) : expectedReturn p tr = some e :=
+  returned_expected p tr s h e hd hf
+
+/-! ### The adapter hypotheses of `C02_progress`, discharged by a regenerated fact
+
+  `GB.Generated.ctxAwareIncoming / ctxAwareOutgoing` are re-extracted from the sources on every run
+  (extract/c02.go): for Recv/Send of every ServerStream adapter (grpcServerStream in proxy.go, httpStream,
+  gwsStream, gRPCWebStream, gRPCWebSocketStream) and for AdaptedClientStream.Recv/Send and
+  AdaptedClientConn.Stream: does the operation select on its ctx parameter's Done channel, or hand it to
+  a withCtx helper that does? -/
+
+/-- Facts tie: every blocking stream operation in the repository observes its context. -/
+theorem C02_facts_ctx_aware :
+    GB.Generated.ctxAware.all (·.2) = true ∧ GB.Generated.ctxAwareIncoming.length = 10 ∧
+    GB.Generated.ctxAwareOutgoing.length = 3 := by decide
+
+/-- The adapters as they are in the repository now. -/
+def C02_repoParams (cs ss : Bool) : Params :=
+  { cs := cs, ss := ss, incAware := GB.Generated.ctxAwareIncoming.all (·.2),
+    outAware := GB.Generated.ctxAwareOutgoing.all (·.2) }
+
+/-- `C02_progress` / bounded termination for the repository's adapters, with no awareness hypothesis left. -/
+theorem C02_progress_repo (e0 : E) (cs ss : Bool) (s : State M E) (hr : Reachable (C02_repoParams cs ss) s)
+    (ht : terminating s = true) :
+    ∃ ls s', GB.LTS.run (step (C02_repoParams cs ss)) s ls = some s' ∧ isDone s' = true ∧ ls.length ≤ 19 :=
+  C02_returns_within_rank e0 (C02_repoParams cs ss)
+    (show GB.Generated.ctxAwareIncoming.all (·.2) = true by decide)
+    (show GB.Generated.ctxAwareOutgoing.all (·.2) = true by decide) 19 s hr ht (C02_rank_bound s)
 
 /-- C12 enforcement on the whole call (instance of bounded termination): once the deadline (or any
     cancellation) has fired, Forward returns within ≤ 19 of its own steps wherever in the call it strikes —
